@@ -19,7 +19,10 @@ expected ones (count, code, payload), 5.00 for failures has an empty payload, no
 contains any of the secret markers put into exception texts / wrong return values, nothing
 escapes into the event loop or the transport.
 """
+import copy
+
 import c09_run
+import c09_tcp
 import vloop
 from common import compare, load_corpus, HarnessError
 
@@ -84,16 +87,14 @@ def hx(b):
 def outcome_token(h):
     o = h["o"]
     if o == "ret":
-        return "r.%s.%s.%s" % ("-" if h["code"] is None else h["code"], h["payload"] or "-",
+        if h.get("etag") is not None:
+            return None          # the model's responses carry no options of their own: judged by the oracle only
+        return "r.%s.%s.%s" % ("-" if h["code"] is None else h["code"],
+                               ("78*%d" % h["fill"]) if "fill" in h else (h["payload"] or "-"),
                                "-" if h["nr"] is None else h["nr"])
     if o == "rend":
-        if h["cls"] in ("Direct", "Custom"):
-            code = h["code"]
-            text = h["msg"] if h["msg"] is not None else h.get("default", "")
-        else:
-            code, default = RENDERABLE[h["cls"]]
-            text = default if (h["msg"] is None or h["cls"] in FIXED_TEXT) else h["msg"]
-        return "e.%d.%s" % (code, hx(text.encode()))
+        code, text = rend_code_text(h)
+        return "e.%d.%s" % (code, ("65*%d" % h["fill"]) if "fill" in h else hx(text.encode()))
     if o == "exc":
         return "x." + hx(c09_run.secret(h["k"]).encode())
     if o == "nonmsg":
@@ -109,6 +110,23 @@ def outcome_token(h):
     if o == "hang":
         return "h"
     raise HarnessError("unknown outcome " + o)
+
+
+def rend_code_text(h):
+    """code and diagnostic text a `rend` outcome stands for (the oracle's own table, not aiocoap's)"""
+    if h["cls"] in ("Direct", "Custom"):
+        code = h["code"]
+        text = h["msg"] if h["msg"] is not None else h.get("default", "")
+    else:
+        code, default = RENDERABLE[h["cls"]]
+        text = default if (h["msg"] is None or h["cls"] in FIXED_TEXT) else h["msg"]
+    if "fill" in h:
+        text = "e" * h["fill"]
+    return code, text
+
+
+def is_tcp(case):
+    return case.get("transport") == "tcp"
 
 
 def find_handler(case, rq):
@@ -165,8 +183,13 @@ def schedule(case, stops=()):
     return evs, info
 
 
-def model_line(case, evs):
-    parts = ["C09", "nosite" if case["site"] is None else "site"]
+def model_line(case, evs, obs=None):
+    parts = ["C09"]
+    if is_tcp(case):
+        # the largest payload the peers' CSM lets a response carry in one message (beyond it the block-wise layer
+        # takes over, C06): aiocoap's policy, read from the connections like EMPTY_ACK_DELAY is from the tuning
+        parts.append("tcp.%d" % min(obs["max_payload"].values()))
+    parts.append("nosite" if case["site"] is None else "site")
     for r in case["site"] or []:
         if r.get("site_only"):
             continue                        # an empty nested site: nothing is registered there
@@ -189,8 +212,11 @@ def impl_string(evs, obs):
             groups[tick].append(item)
         else:
             stray.append("STRAY@%d:%s" % (tick, item))
-    wire = ["%s:%d:%s" % (w["token"] or "-", w["code"], w["payload"] or "-")
-            for w in obs["wire"] if 64 <= w["code"] < 192 and not w["retransmission"]]
+    if obs["wire"] and obs["wire"][0]["mtype"] == "TCP":
+        wire = [w["raw"] for w in obs["wire"]]        # every message the server wrote after its CSM, byte for byte
+    else:
+        wire = ["%s:%d:%s" % (w["token"] or "-", w["code"], w["payload"] or "-")
+                for w in obs["wire"] if 64 <= w["code"] < 192 and not w["retransmission"]]
     out = "|".join(";".join(sorted(groups[t])) for t in ticks)
     if stray:
         out += "|" + ";".join(sorted(stray))
@@ -228,16 +254,18 @@ def expected(case, rq, inf):
         return None
     if o == "ret":
         code = h["code"] if h["code"] is not None else default_success(rq["code"])
+        if not 64 <= code < 192:
+            # a message that is no response (request code, empty, signalling) answers nothing: as unusable as a
+            # value that is no message at all
+            return ("badcode", 160, b"")
         nr = h["nr"] if h["nr"] is not None else rq["nr"]
         if no_response_suppresses(nr, code):
             return None
-        return ("ret", code, bytes.fromhex(h["payload"]))
+        return ("ret", code, c09_run.ret_payload(h))
     if o == "rend":
-        if h["cls"] in ("Direct", "Custom"):
-            text = h["msg"] if h["msg"] is not None else h.get("default", "")
-            return ("rend", h["code"], text.encode())
-        code, default = RENDERABLE[h["cls"]]
-        text = default if (h["msg"] is None or h["cls"] in FIXED_TEXT) else h["msg"]
+        code, text = rend_code_text(h)
+        if not 64 <= code < 192:
+            return ("rfail", 160, b"")                # an error renderer that produces no response has failed
         return ("rend", code, text.encode())
     if o == "unenc" and h.get("how") == "uncopyable":
         return ("ret", 69, b"ok")                     # a message that can be sent is sent -- once
@@ -266,6 +294,21 @@ def oracle(case, obs):
                 return ("response %d for token %s to peer %d went out as %s with Message ID %d, which is not the "
                         "Message ID of that peer's confirmable request on the token"
                         % (w["code"], w["token"] or "-", w["remote"], w["mtype"], w["mid"])), "mtype:stray-ack"
+    return judge_responses(case, obs)
+
+
+def short(x):
+    """payloads in verdict texts: long ones by length and beginning"""
+    if isinstance(x, (bytes, bytearray)):
+        return repr(bytes(x)) if len(x) <= 48 else "<%d bytes %r...>" % (len(x), bytes(x[:12]))
+    if isinstance(x, (list, tuple)):
+        return "[" + ", ".join(short(y) for y in x) + "]" if isinstance(x, list) else \
+            "(" + ", ".join(short(y) for y in x) + ")"
+    return repr(x)
+
+
+def judge_responses(case, obs):
+    """count, code and payload of the final responses per (peer, token) against the property's table"""
     _, info = schedule(case)
     want = {}
     kinds = {}
@@ -285,8 +328,8 @@ def oracle(case, obs):
         e = want.get(key, [])
         tag = "+".join(sorted(set(kinds.get(key, ["?"]))))
         if len(g) != len(e):
-            return ("peer %d token %s: %d final response(s) on the wire %r, the property promises %d %r"
-                    % (key[0], key[1] or "-", len(g), g, len(e), [(x[1], x[2]) for x in e])), "count:" + tag
+            return ("peer %d token %s: %d final response(s) on the wire %s, the property promises %d %s"
+                    % (key[0], key[1] or "-", len(g), short(g), len(e), short([(x[1], x[2]) for x in e]))), "count:" + tag
         if sorted(c for c, _ in g) != sorted(x[1] for x in e):
             return ("peer %d token %s: response codes %r, expected %r"
                     % (key[0], key[1] or "-", [c for c, _ in g], [x[1] for x in e])), "code:" + tag
@@ -295,9 +338,45 @@ def oracle(case, obs):
         for (kind, code, pay) in sorted(e, key=lambda x: x[2] is None):
             cands = [x for x in rest if x[0] == code and (pay is None or x[1] == pay)]
             if not cands:
-                return ("peer %d token %s: the %s response %d should carry payload %r, got %r"
-                        % (key[0], key[1] or "-", kind, code, pay, [x for x in rest if x[0] == code])), "payload:" + kind
+                return ("peer %d token %s: the %s response %d should carry payload %s, got %s"
+                        % (key[0], key[1] or "-", kind, code, short(pay), short([x for x in rest if x[0] == code]))), "payload:" + kind
             rest.remove(cands[0])
+    return "", None
+
+
+def oracle_tcp(case, obs):
+    """the same reading of the property for requests served over CoAP-over-TCP: the messages are what this
+    harness's own RFC 8323 reader finds in the byte stream the server wrote to each connection"""
+    for e in obs["errors"]:
+        return "exception escaped into the transport: " + e, "escape:transport"
+    for e in obs["task_errors"]:
+        return "a rendering task died with " + e, "escape:task:" + e.split(":")[0]
+    for e in obs["loop_exceptions"]:
+        return "exception reached the event loop: " + e, "escape:loop"
+    for pr in obs["problems"]:
+        # a stream that cannot be read, a connection the server gave up or aborted: one request's outcome has
+        # taken the answers of all the others on that connection with it
+        return "over TCP: " + pr, "tcp:stream"
+    for w in obs["wire"]:
+        if c09_run.SECRET in bytes.fromhex(w["payload"]) or any(c09_run.SECRET in bytes.fromhex(v) for _, v in w["options"]):
+            return ("exception text / wrong return value leaked into a message to peer %d: code %d payload %r"
+                    % (w["remote"], w["code"], bytes.fromhex(w["payload"])[:60])), "leak"
+        if not 64 <= w["code"] < 192:
+            return ("the server wrote a message with code %d (no response) and token %s to peer %d"
+                    % (w["code"], w["token"] or "-", w["remote"])), "tcp:non-response"
+    v, k = judge_responses(case, obs)
+    if v:
+        return "over TCP: " + v, k
+    # options a handler put on its message travel with it
+    _, info = schedule(case)
+    for rq, inf in zip(case["requests"], info):
+        h = inf["h"]
+        if h is not None and h["o"] == "ret" and h.get("etag") is not None and expected(case, rq, inf) is not None:
+            for w in obs["wire"]:
+                if (w["remote"], w["token"]) == (rq["remote"], rq["token"]) and (4, h["etag"]) not in \
+                        [tuple(o) for o in w["options"]]:
+                    return ("over TCP: peer %d token %s: the returned message's ETag %s is not on the response (options %r)"
+                            % (rq["remote"], rq["token"] or "-", h["etag"], w["options"])), "options:ret"
     return "", None
 
 
